@@ -9,7 +9,7 @@ import sys
 
 from engine import oracles
 from engine.runner import Ob
-from props import c01, c10
+from props import c01, c10, common
 
 LEVEL = "model_checking"
 EXPLANATION = (
@@ -205,7 +205,7 @@ def _s(v):
 
 _HOST_SCRIPT = r'''
 import sys, os, io, json, hashlib, glob
-sys.path.insert(0, "/repo")
+sys.path.insert(0, "@REPO@")
 import xdis.load as LD
 from xdis.disasm import get_opcode, disco
 from xdis.bytecode import Bytecode
@@ -329,7 +329,7 @@ def program_files():
 def host_digests(host):
     if host not in _DIGESTS:
         files = sorted(glob.glob("/repo/test/bytecode_*/*.pyc")) + program_files()
-        _DIGESTS[host] = oracles.run_in(host, _HOST_SCRIPT.replace("-S", ""), files, timeout=900)
+        _DIGESTS[host] = oracles.run_in(host, _HOST_SCRIPT.replace("@REPO@", common.REPO), files, timeout=900)
     return _DIGESTS[host]
 
 
@@ -405,7 +405,7 @@ def generate(tier, seed):
                      "C01.m3230.nested"):
             picked.append(ob)
     if tier == "thorough":
-        picked = [ob for ob in c10.generate("quick", seed)] + [ob for ob in c01.generate("quick", seed)]
+        picked = [ob for ob in c10.generate("quick", seed) + c01.generate("quick", seed) if ob.direct is None]
     for ob in picked:
         obs.append(with_host(ob))
     for i, src in enumerate(PROGRAMS):
